@@ -254,7 +254,10 @@ def origins(body, place, through=PASS_THROUGH, depth=0, _seen=None, at=None):
                     elif "fn" in c:
                         out.append(Origin("fn", c["fn"].get("resolved", {}).get("path") or c["fn"]["callee"]))
                     else:
-                        out.append(Origin("const", c.get("v") if c.get("v") is not None else c.get("item")))
+                        if isinstance(c.get("v"), dict) and "static" in c["v"]:
+                            out.append(Origin("static", c["v"]["static"]))
+                        else:
+                            out.append(Origin("const", c.get("v") if c.get("v") is not None else c.get("item")))
                 else:
                     src = op[1]
                     sub = origins(body, src, through, depth + 1, _seen)
@@ -271,7 +274,10 @@ def origins(body, place, through=PASS_THROUGH, depth=0, _seen=None, at=None):
                     if "fn" in c:
                         out.append(Origin("fn", c["fn"].get("resolved", {}).get("path") or c["fn"]["callee"]))
                     else:
-                        out.append(Origin("const", c.get("v")))
+                        if isinstance(c.get("v"), dict) and "static" in c["v"]:
+                            out.append(Origin("static", c["v"]["static"]))
+                        else:
+                            out.append(Origin("const", c.get("v")))
             elif k == "agg":
                 out.append(Origin("agg", (d[1], d[2], rv[1], rv[2])))
             elif k == "bin":
